@@ -531,6 +531,28 @@ def check_accessors(f, ps, keep, where):
             return "%s[%r]: getvalue/getfirst/getlist = %r, sent values %r" % (where, key, (gv, gf, gl), vals)
         if vals and (key in f) is not True:
             return "%s: %r not in the mapping" % (where, key)
+        # converters and defaults: getfirst converts the first value only and hands an absent key's default back untouched,
+        # getlist converts every value
+        seen = []
+
+        def conv(x):
+            seen.append(x)
+            return [x, len(x)]          # a converter may return anything, a list or something falsy included
+        for dflt in ("DEF", ["x", "y"], [], 0):
+            del seen[:]
+            got = f.getfirst(key, dflt, conv)
+            if vals:
+                if got != [vals[0], len(vals[0])] or seen != [vals[0]]:
+                    return "%s[%r]: getfirst with a converter = %r after converting %r, sent values %r" % (where, key, got, seen, vals)
+            elif got is not dflt or seen:
+                return "%s[%r]: getfirst of an absent key = %r (converted %r), the default is %r" % (where, key, got, seen, dflt)
+        gl = f.getlist(key, func=lambda x: "<%s>" % x)
+        if gl != ["<%s>" % v for v in vals]:
+            return "%s[%r]: getlist with a converter = %r, sent values %r" % (where, key, gl, vals)
+        if not vals and f.getlist(key, ["e"]) != ["e"]:
+            return "%s[%r]: getlist of an absent key with a default = %r" % (where, key, f.getlist(key, ["e"]))
+        if vals and f.getfirst(key, func=lambda x: "") != "":
+            return "%s[%r]: getfirst with a converter giving '' = %r" % (where, key, f.getfirst(key, func=lambda x: ""))
     return None
 
 
@@ -542,9 +564,42 @@ def multipart_body(ps, boundary, final_crlf=True):
     return b"".join(out)
 
 
+def json_accessor_oracle(case, t):
+    """`json <value> <key>`: getvalue / getfirst / getlist of the dict-like or list-like agree with the value sent"""
+    value, key = decode_j(t[2]), unhx(t[3]).decode()
+    if JC.hasfloat(value):
+        return []
+    res = {}
+
+    def fn(req):
+        j = req.json
+        if isinstance(value, dict):
+            if key in value:
+                v = value[key]
+                want = (v, (v[0] if v else "DEF") if isinstance(v, list) else v, v if isinstance(v, list) else [v])
+            else:
+                want = ("DEF", "DEF", [])
+            got = (j.getvalue(key, "DEF"), j.getfirst(key, "DEF"), j.getlist(key))
+        elif isinstance(value, list):
+            want = ((value[0] if value else "DEF"), (value[0] if value else "DEF"), value)
+            got = (j.getvalue(key, "DEF"), j.getfirst(key, "DEF"), j.getlist(key))
+        else:
+            want = got = j if j == value else "?"
+        return None if got == want else "accessors (getvalue, getfirst, getlist)(%r) = %r on %r, required %r" % (key, got, value, want)
+    try:
+        status, ran, out, _ = call(get_app(), environ("POST", "", json.dumps(value).encode(), "application/json"), fn)
+    except Exception as err:
+        return [Violation("c10:json-accessors", case, "raised %r" % (err,))]
+    if ran and out[0]:
+        return [Violation("c10:json-accessors", case, out[0])]
+    return []
+
+
 def oracle(case):
     import random
     t = case.split()
+    if t[1] == "json":
+        return json_accessor_oracle(case, t)
     if t[1] != "e2e":
         return []
     rng = random.Random(int(t[2]))
